@@ -379,6 +379,8 @@ class RequestHandler:
         ``Date`` header).
 
         """
+        if not httputil._ABNF.field_name.fullmatch(name):
+            raise ValueError("Unsafe header name %r" % name)
         self._headers[name] = self._convert_header_value(value)
 
     def add_header(self, name: str, value: _HeaderTypes) -> None:
